@@ -28,6 +28,9 @@ VERDICTS = {
     'C03': {'fin-twice', 'fin-missing', 'raise-early'},
     'C06': {'delivered-after-close', 'isclosed-false', 'wait-early', 'wait-hang'},
     'C07': {'terminal-lost'},
+    # a teardown that was registered (Add returned) on a subscription that got disposed, and never ran: the upstream it stands
+    # for is never cancelled although the downstream has ended
+    'C14': {'fin-missing'},
 }
 ALWAYS = {'harness-timeout', 'harness-panic'}
 
